@@ -10,8 +10,8 @@ from common import Case, Result, build, run_driver, val, PANIC, f2h
 import p2
 
 PROP = 'C07'
-ALPHA = [-1.5, -0.0, 0.0, 2.0, 7.0, 1e30]
-RULE = ('EVERY sequence of length 4 over {-1.5, -0.0, +0.0, 2.0, 7.0, 1e30}, observed after each of its 1..4 observations (so '
+ALPHA = [-1.5, -0.0, 0.0, 2.0, 7.0, 1e30, 1.7e308, -1.6e308]
+RULE = ('EVERY sequence of length 4 over {-1.5, -0.0, +0.0, 2.0, 7.0, 1e30, 1.7e308, -1.6e308}, observed after each of its 1..4 observations (so '
         'every sequence of length 1..4, i.e. every permutation of every multiset with duplicates) x a grid of p containing 0, 1, '
         'every k/n for n<=4, the floating-point neighbours of each, and random p; plus random sequences of section-3.1 values. '
         'Model: sort the multiset; t = n*p exactly (p is a dyadic rational); the answer is the order statistic ceil(t) (clamped), '
